@@ -54,6 +54,7 @@ import (
 	"runtime/debug"
 	"strings"
 	"sync"
+	"verif/harness/rdr"
 
 	"github.com/sqlc-dev/doubleclick/parser"
 )
@@ -87,7 +88,7 @@ func explainStmt(src string) (text string, status string) {
 			text, status = fmt.Sprint(r), "PANIC"
 		}
 	}()
-	stmts, err := parser.Parse(context.Background(), strings.NewReader(src))
+	stmts, err := parser.Parse(context.Background(), rdr.For(src))
 	if err != nil {
 		return err.Error(), "ERR"
 	}
